@@ -15,6 +15,8 @@
 #include <libxml/tree.h>
 
 #include <cstdio>
+#include <set>
+#include <sys/wait.h>
 #include <unistd.h>
 
 using namespace UTAP;
@@ -211,6 +213,14 @@ void dumpAll(std::ostream& os, Document& doc)
         os << "priority " << p.uid.get_name() << " " << pr << "\n";
     }
     os << "hasPriorities " << doc.has_priority_declaration() << "\n";
+    {   // the action name of edges (XML attribute "action"; not part of the structural dump)
+        std::set<std::string> names;
+        for (auto& t : doc.get_templates())
+            for (auto& e : t.edges) names.insert(e.actname);
+        os << "ACTNAMES";
+        for (auto& n : names) os << " " << vh::quote(n);
+        os << "\n";
+    }
     vh::dumpDiags(os, doc, false);
     auto m = doc.get_supported_methods();
     os << "VERDICT errors=" << doc.get_errors().size() << " symbolic=" << m.symbolic << " stochastic=" << m.stochastic
@@ -350,6 +360,12 @@ void docGraph(Document& doc)
                       << " prob=" << (e.prob.empty() ? std::string("-") : vh::quote(e.prob.str())) << "\n";
         }
     }
+    // the system line: per process whether it is a template itself and which of its parameters are bound
+    for (auto& p : doc.get_processes()) {
+        std::cout << "D process " << p.uid.get_name() << " istempl=" << (p.templ && p.uid.get_name() == p.templ->uid.get_name()) << " bound=[";
+        for (uint32_t i = 0; i < p.parameters.get_size(); ++i) std::cout << (p.mapping.find(p.parameters[i]) != p.mapping.end());
+        std::cout << "]\n";
+    }
 }
 
 void opWrite(const std::string& text, const std::string& tmp)
@@ -393,7 +409,20 @@ int main(int argc, char** argv)
         std::cin.get();
         std::cout << "BEGIN " << id << " " << op << "\n";
         if (op == "xml" || op == "xta") opParse(op, text);
-        else if (op == "write") opWrite(text, tmp);
+        else if (op == "write") {
+            // the writer is known to crash on some documents: run it in a child so that one crash costs one case
+            std::cout.flush();
+            pid_t pid = fork();
+            if (pid == 0) {
+                opWrite(text, tmp);
+                std::cout.flush();
+                _exit(0);
+            }
+            int st = 0;
+            waitpid(pid, &st, 0);
+            if (!(WIFEXITED(st) && WEXITSTATUS(st) == 0))
+                std::cout << "WRITER-CRASH " << (WIFSIGNALED(st) ? "signal=" + std::to_string(WTERMSIG(st)) : "rc=" + std::to_string(WEXITSTATUS(st))) << "\n";
+        }
         else std::cout << "bad-op\n";
         std::cout << "END " << id << "\n";
         std::cout.flush();
